@@ -72,7 +72,7 @@ pub fn gen_cfg(rng: &mut Rng, prof: &Profile, tier_thorough: bool) -> SimCfg {
         start_height: *rng.pick(&[100u32, 800_000, 1, 0, 4_000_000_000]),
         fault_tier: if (tier_thorough && rng.chance(1, 3)) || (!tier_thorough && rng.chance(1, 8)) { 2 } else if rng.chance(1, 2) { 1 } else { 0 },
         // a few runs have an outage: up to five faults, also several in a row on one retried call
-        max_faults: if rng.chance(1, 6) { 5 } else { 2 },
+        max_faults: if rng.chance(1, 6) { 6 } else { 2 },
         max_crashes: if *prof == Profile::Timeout { 1 + rng.below(2) as u32 } else if crashy { rng.below(3) as u32 } else { 0 },
         max_steps: 400,
         probe: *prof == Profile::Probe,
